@@ -72,9 +72,15 @@ class World:
 
     #: realisation hint ['empty-reason', tag]: the reason carrying this tag is the empty string (falsy but valid)
     empty_reason_tag = None
+    object_reason_tag = None
 
     def reason_text(self, tag):
-        return '' if tag == self.empty_reason_tag else 'reason-%d' % tag
+        text = '' if tag == self.empty_reason_tag else 'reason-%d' % tag
+        if tag == self.object_reason_tag:
+            # realisation hint ['object-reason', tag]: the reason is not a str but something that can be cast to one
+            # (the idiom `except ImportError as e: self.skipTest(e)`)
+            return ImportError(text)
+        return text
 
     def make_exc(self, e):
         cls, tag = e
@@ -369,6 +375,9 @@ def build_case(w, prog, log, clock, scratch, sink_factory, hints=()):
                 return super().getDetails()
         return FxBad()
 
+    def call_fn(fn=None):
+        return fn()
+
     def run_stage(case, st, upcall=None):
         _, sid, acts, term = st
         clock.t += 1
@@ -384,7 +393,10 @@ def build_case(w, prog, log, clock, scratch, sink_factory, hints=()):
                 # whose setUp succeeds and whose getDetails() raises when useFixture asks for it
                 case.useFixture(mk_bad_details_fixture(case, a[1], term[1]))
                 raise AssertionError('harness: useFixture should have raised')
-            if k == 'cleanup':
+            if k == 'cleanup' and ['kwfn', a[1][1]] in hints:
+                # realisation hint ['kwfn', id of the cleanup stage]: the cleanup takes a keyword argument called fn
+                case.addCleanup(call_fn, fn=(lambda _c=a[1]: run_stage(case, _c)))
+            elif k == 'cleanup':
                 case.addCleanup(run_stage, case, a[1])
             elif k == 'addDetail':
                 case.addDetail(render_name(a[1]), make_content(w, a[2], clock))
@@ -593,6 +605,7 @@ def run_program(inp):
     prog, runs = inp[0], inp[1]
     hints = list(inp[2]) if len(inp) > 2 else []
     w.empty_reason_tag = next((h[1] for h in hints if isinstance(h, list) and h[0] == 'empty-reason'), None)
+    w.object_reason_tag = next((h[1] for h in hints if isinstance(h, list) and h[0] == 'object-reason'), None)
     flavour = prog[-1]
     attrs0 = prog[8]
     log = []
@@ -821,6 +834,16 @@ def gen_input(rng, focus='all'):
     for st in all_stages(prog):
         if st[3] == 'ret' and rng.random() < 0.12:
             hints.append(['retval', st[1], rng.randrange(1, 8)])
+    for st in all_stages(prog):
+        for a in st[2]:
+            if a[0] == 'cleanup' and rng.random() < 0.15:
+                hints.append(['kwfn', a[1][1]])
+    if rng.random() < 0.2:
+        tags = [st[3][1][1] for st in all_stages(prog) if isinstance(st[3], list) and st[3][0] == 'raise1' and st[3][1][0] == 'skip']
+        if prog[1] is not None:
+            tags += [prog[1][1]] * 2
+        if tags:
+            hints.append(['object-reason', rng.choice(tags)])
     if rng.random() < 0.25:
         # one reason in the program is the empty string: a skip raised by a stage, the skip decorator's, or expectFailure's
         tags = [st[3][1][1] for st in all_stages(prog) if isinstance(st[3], list) and st[3][0] == 'raise1' and st[3][1][0] == 'skip']
@@ -870,7 +893,7 @@ def exc_kinds(prog):
 
 def features(inp, traces):
     prog, runs = inp[0], inp[1]
-    f = ['flavour=' + prog[-1], 'runs=%d' % runs] + (['hint:fixture-getDetails-raises'] if len(inp) > 2 and any(isinstance(h, int) for h in inp[2]) else []) + ['hint:skip-decorator-%d' % h[1] for h in (inp[2] if len(inp) > 2 else []) if isinstance(h, list) and h[0] == 'skip'] + ['hint:%s' % h[0] for h in (inp[2] if len(inp) > 2 else []) if isinstance(h, list) and h[0] in ('late-upcall', 'runner', 'empty-reason')] + ['hint:retval-%d' % h[2] for h in (inp[2] if len(inp) > 2 else []) if isinstance(h, list) and h[0] == 'retval'] + ['hint:scratch-%d' % h[1] for h in (inp[2] if len(inp) > 2 else []) if isinstance(h, list) and h[0] == 'scratch'] + ['hint:helper-raises' for h in (inp[2] if len(inp) > 2 else []) if isinstance(h, list) and h[0] == 'api'][:1]
+    f = ['flavour=' + prog[-1], 'runs=%d' % runs] + (['hint:fixture-getDetails-raises'] if len(inp) > 2 and any(isinstance(h, int) for h in inp[2]) else []) + ['hint:skip-decorator-%d' % h[1] for h in (inp[2] if len(inp) > 2 else []) if isinstance(h, list) and h[0] == 'skip'] + ['hint:%s' % h[0] for h in (inp[2] if len(inp) > 2 else []) if isinstance(h, list) and h[0] in ('late-upcall', 'runner', 'empty-reason', 'object-reason', 'kwfn')] + ['hint:retval-%d' % h[2] for h in (inp[2] if len(inp) > 2 else []) if isinstance(h, list) and h[0] == 'retval'] + ['hint:scratch-%d' % h[1] for h in (inp[2] if len(inp) > 2 else []) if isinstance(h, list) and h[0] == 'scratch'] + ['hint:helper-raises' for h in (inp[2] if len(inp) > 2 else []) if isinstance(h, list) and h[0] == 'api'][:1]
     sts = list(all_stages(prog))
     faulty = [s for s in sts if s[3] != 'ret']
     f.append('stages=%s' % (len(sts) if len(sts) < 8 else '8+'))
